@@ -881,9 +881,11 @@ func c14GenSteps(r *hx.Rand, cs *c14Case, maxLen int, burst bool) {
 		cs.Steps = append(cs.Steps, c14Step{Kind: kind, Ops: []int{i}})
 	}
 	if !burst {
+		sleeps := 0
 		for k := 0; k < n; k++ {
-			if longTTL && k > 0 && r.Chance(1, 6) {
+			if longTTL && k > 0 && sleeps < 3 && r.Chance(1, 6) {
 				cs.Steps = append(cs.Steps, c14Step{Kind: "sleep", SleepMs: 65})
+				sleeps++
 			}
 			emit()
 		}
@@ -994,7 +996,7 @@ func runC14(ctx *Ctx) error {
 	nHist := 1200
 	maxLen := 12
 	if ctx.Thorough() {
-		nHist = 12000
+		nHist = 5000
 		maxLen = 40
 	}
 	var gen *c14Case
